@@ -69,6 +69,17 @@ class Fn:
     def loc(self) -> str:
         return f"{self.mod.path}:{self.lineno}"
 
+    @property
+    def owner(self) -> str:
+        """Name under which findings are keyed: `Class.method` or, for module-level / nested functions, the name chain without the module
+        path (moving a function to another module of the package does not change what it is)."""
+        if self.cls is not None:
+            return f"{self.cls.name}.{self.name}"
+        q = self.qual
+        if q.startswith(self.mod.name + "."):
+            q = q[len(self.mod.name) + 1:]
+        return q
+
     def params(self) -> list[str]:
         a = self.node.args
         return [x.arg for x in a.posonlyargs + a.args] + ([a.vararg.arg] if a.vararg else []) + [
@@ -194,11 +205,14 @@ class Prog:
 
             trees = {name: m.tree for name, m in self.mods.items()}
             n_ann = sum(normalise.plain_assignments(t) for t in trees.values())
+            n_any = sum(normalise.any_to_loop(t) for t in trees.values())
             self.norm_stats = normalise.absorb_helpers(trees)
             self.norm_stats["annotated_assignments"] = n_ann
+            self.norm_stats["any_tests_to_search_loops"] = n_any
             self.norm_stats["constants_inlined"] = normalise.inline_constants(trees)
             self.norm_stats["accumulator_loops_folded"] = sum(normalise.fold_accumulator_loops(t) for t in trees.values())
             self.norm_stats["single_use_temporaries_inlined"] = sum(normalise.inline_single_use_temps(t) for t in trees.values())
+            self.norm_stats["tails_duplicated_into_branches"] = sum(normalise.duplicate_tail_into_branches(t) for t in trees.values())
         self._index()
         self._resolve_bases()
 
